@@ -9,7 +9,8 @@ impl<const BITS: usize, const LIMBS: usize> Uint<BITS, LIMBS> {
     #[inline]
     #[must_use]
     pub fn checked_log(self, base: Self) -> Option<usize> {
-        if base < Self::from(2) || self.is_zero() {
+        // `base < 2`, written so that it also works when 2 does not fit `Self`.
+        if base <= Self::ONE || self.is_zero() {
             return None;
         }
         Some(self.log(base))
@@ -21,7 +22,12 @@ impl<const BITS: usize, const LIMBS: usize> Uint<BITS, LIMBS> {
     #[inline]
     #[must_use]
     pub fn checked_log10(self) -> Option<usize> {
-        self.checked_log(Self::from(10))
+        match Self::try_from(10_u64) {
+            Ok(ten) => self.checked_log(ten),
+            // 10 does not fit, so every non-zero value is below 10.
+            Err(_) if self.is_zero() => None,
+            Err(_) => Some(0),
+        }
     }
 
     /// Returns the base 2 logarithm of the number, rounded down.
@@ -32,7 +38,10 @@ impl<const BITS: usize, const LIMBS: usize> Uint<BITS, LIMBS> {
     #[inline]
     #[must_use]
     pub fn checked_log2(self) -> Option<usize> {
-        self.checked_log(Self::from(2))
+        if self.is_zero() {
+            return None;
+        }
+        Some(self.bit_len() - 1)
     }
 
     /// Returns the logarithm of the number, rounded down.
@@ -44,7 +53,7 @@ impl<const BITS: usize, const LIMBS: usize> Uint<BITS, LIMBS> {
     #[must_use]
     pub fn log(self, base: Self) -> usize {
         assert!(!self.is_zero());
-        assert!(base >= Self::from(2));
+        assert!(base > Self::ONE);
         if base == Self::from(2) {
             return self.bit_len() - 1;
         }
@@ -106,7 +115,14 @@ impl<const BITS: usize, const LIMBS: usize> Uint<BITS, LIMBS> {
     #[inline]
     #[must_use]
     pub fn log10(self) -> usize {
-        self.log(Self::from(10))
+        match Self::try_from(10_u64) {
+            Ok(ten) => self.log(ten),
+            Err(_) => {
+                // 10 does not fit, so every non-zero value is below 10.
+                assert!(!self.is_zero());
+                0
+            }
+        }
     }
 
     /// Returns the base 2 logarithm of the number, rounded down.
@@ -117,7 +133,8 @@ impl<const BITS: usize, const LIMBS: usize> Uint<BITS, LIMBS> {
     #[inline]
     #[must_use]
     pub fn log2(self) -> usize {
-        self.log(Self::from(2))
+        assert!(!self.is_zero());
+        self.bit_len() - 1
     }
 
     /// Double precision logarithm.
